@@ -920,6 +920,20 @@ def prop_C15(ctx):
                 else:
                     ctx.report(r, 'documented misuse (%s, on a %s) is rejected without the diagnostic naming it: missing %r, got %r'
                                % (fname, pos or 'type', rx, msgs[:6]), 'fault injection', key='unreported@%s:%s' % (pos, fname))
+    # the documented switch: with #[o2o(allow_unknown)] foreign attributes named like instructions of the other level are no misuse
+    au_pairs = []
+    for _ in range(600 if q else 6000):
+        res = gen.c15_allow_unknown(ctx.rng.choice(ok_bases), ctx.rng) if ok_bases else None
+        if res is not None:
+            au_pairs.append(res)
+    precs = ctx.run_set('allow_unknown_plain', [p_ for p_, _ in au_pairs], vlib.obs_full)
+    frecs = ctx.run_set('allow_unknown_foreign', [f_ for _, f_ in au_pairs], vlib.obs_full)
+    for pr_, fr_ in zip(precs, frecs):
+        if vlib.outcome_class(pr_['out']) != 'ok':
+            ctx.report(pr_, '#[o2o(allow_unknown)] added to a valid input makes it rejected: %s' % (pr_['out'] or '')[:200], 'valid-by-construction input', key='false-reject:allow_unknown')
+        elif vlib.nospacing(fr_['out']) != vlib.nospacing(pr_['out']):
+            ctx.report(fr_, 'with #[o2o(allow_unknown)] in place, foreign attributes (named like instructions of the other level) change the outcome: %s'
+                       % (fr_['out'] or '')[:240], 'metamorphic: foreign attributes removed', key='false-reject:allow_unknown-foreign')
     ctx.cov['fault_classes'] = sorted(set(n for _, n, _ in inj))
     ctx.cov['fault_outcomes'] = dict(stats)
     return ctx.finish()
